@@ -156,6 +156,22 @@ pub mod proofs {
         kani::cover!(true, "end of harness reachable");
     }
 
+    /// the helper variant that carries the type parameters is not part of the wire format:
+    /// no key spelled like it is accepted by a generic message type (exec, sudo, query)
+    #[kani::proof]
+    #[kani::unwind(12)]
+    fn c15_fx_generic_phantom_not_on_wire() {
+        use serde::Deserialize;
+        let none: [(&str, script::Sv); 0] = [];
+        let pick: u8 = kani::any();
+        kani::assume(pick < 4);
+        let key = match pick { 0 => "__phantom", 1 => "_phantom", 2 => "phantom", _ => "_Phantom" };
+        assert!(sv::ExecMsg::<u32>::deserialize(script::ED { key, fields: &none }).is_err());
+        assert!(sv::SudoMsg::<u8>::deserialize(script::ED { key, fields: &none }).is_err());
+        assert!(sv::QueryMsg::<u8>::deserialize(script::ED { key, fields: &none }).is_err());
+        kani::cover!(true, "end of harness reachable");
+    }
+
     // a type satisfying ONLY the bounds that mention A alone — and nothing about B, R, U
     #[derive(serde::Serialize, serde::Deserialize, Debug, Clone, Copy, PartialEq, schemars::JsonSchema)]
     pub struct OnlyA(pub u8);
